@@ -281,7 +281,7 @@ func corpus() []string {
 	// (suspicion (b): the mismatching ones are recognised and reported)
 	for _, pre := range []string{"", "A", "a", "1", "AB", "ab", "12", "A1", "&"} {
 		for k := 1; k <= 8; k++ {
-			for _, post := range []string{"", ";", ";;", ";;;;;;", "A", "AB", "a", "1", "&"} {
+			for _, post := range []string{"", ";", ";;", ";;;;;;", "A", "AB", "a", "1", "&", "ABCDEF", "abcdef", "123456", "&&&&&&&", "\n\n\n\n\n\n", ";;;;;;A"} {
 				c = append(c, pre+strings.Repeat(";", k)+"\x80"+post)
 			}
 		}
@@ -619,13 +619,13 @@ func benchDecode(b *testing.B, in string, lvl int) {
 	}
 }
 
-func BenchmarkDecode3Rows(b *testing.B)  { benchDecode(b, "ABCDEFGHIJ", 0) }
+func BenchmarkDecode3Rows(b *testing.B)   { benchDecode(b, "ABCDEFGHIJ", 0) }
 func BenchmarkDecodeSmallL2(b *testing.B) { benchDecode(b, "Hello, World! 123", 2) }
 func BenchmarkDecodeBigL0(b *testing.B) {
-	benchDecode(b, strings.Repeat("ABCDEFGHIJKLMNOPQRSTUVWXYZ ", 70)[:1800], 0)
+	benchDecode(b, strings.Repeat("ABCDEFGHIJKLMNOPQRSTUVWXYZ ", 70)[:1794], 0)
 }
 func BenchmarkDecodeBigL8(b *testing.B) {
-	benchDecode(b, strings.Repeat("ABCDEFGHIJKLMNOPQRSTUVWXYZ ", 70)[:800], 8)
+	benchDecode(b, strings.Repeat("ABCDEFGHIJKLMNOPQRSTUVWXYZ ", 70)[:774], 8)
 }
 func BenchmarkDecodeBigNumericL5(b *testing.B) {
 	benchDecode(b, strings.Repeat("1234567890", 200)[:1500], 5)
